@@ -36,7 +36,8 @@ def build(H, tier, seed):
 
 def standins(tier, seed):
     always = ['a.norm()', 'a.normalized()', '(a.normsq()).sqrt()', '(a.e1 * b)', '(b * a.e21)', '(a.e12 + b)', '(a ** -1)', '(a ** -2)',
-              '(a / Q23)', '(a * Q23)', '(Q23 * a)', '((a + b) / Q23)', '(a / -4)', '(a / 2.5)', '(-2 * a)', '(2 - a)', '(Q23 - a)', '(a - Q23)']
+              '(a / Q23)', '(a * Q23)', '(Q23 * a)', '((a + b) / Q23)', '(a / -4)', '(a / 2.5)', '(-2 * a)', '(2 - a)', '(Q23 - a)', '(a - Q23)',
+              '(0 * a).norm()', '((a - a) * b).norm()']        # norm of a result that is identically zero (F18, fixed: generated 0.5/0)
     if tier == 'quick':
         cfgs = [dict(p=3, q=0, r=1, exhaustive_depth2=True, sample=60, random=10, always=always), dict(p=2, q=1, exhaustive_depth2=True, sample=60, random=10),
                 dict(p=2, exhaustive_depth2=True, sample=40, random=10, nargs=2), dict(p=3, random=25, nargs=3, modes=['numeric']),
